@@ -377,6 +377,9 @@ def run(ck):
                    "reaches processData with >= 2 octets; distinct = distinct (context, stream, segmentation)")
     gen_ok = regenerate(ck)
     broken = ck.coq_props()
+    if os.path.exists(os.path.join(vlib.COQ, "Props", "C02Utf8.v")):
+        # bridge to C09: the model's UTF-8 automaton is the table-driven validator the code runs (obligations accumulate)
+        broken = ck.coq_props("Props/C02Utf8.v")
     ok, out = vlib.coq_make(["Model/WsRecvRun.vo"])
     if not ok:
         ck.obligation("model_runner_builds", False, out[-1500:])
@@ -424,6 +427,16 @@ def run(ck):
                             c = dict(BASE, role=role, fbd=fbd, chunks=[x.hex() for x in chunks], **var)
                             cases.append(c)
                             meta.append((role, fbd, label, si, json.dumps(var, sort_keys=True)))
+        burst_of = {}
+        if fw0 == "aio":
+            # asyncio queues reads behind one waiter wake-up: every multi-read segmentation is ALSO delivered as one
+            # burst (all data_received() calls before the loop turns); it must behave exactly as read by read
+            n_orig = len(cases)
+            for i in range(n_orig):
+                if len(cases[i]["chunks"]) >= 2 and (not quick or i % 2 == 0 or meta[i][2] == "corpus"):
+                    burst_of[len(cases)] = i
+                    cases.append(dict(cases[i], burst=True))
+                    meta.append(meta[i][:2] + ("burst|" + meta[i][2],) + meta[i][3:])
         if nvx and quick:
             # quick: the deterministic streams (corpus, boundary tables) and a third of the generated ones
             keep = [i for i, m in enumerate(meta) if m[2] == "corpus" or m[2].startswith("boundary:") or m[3] % 3 == 0]
@@ -441,7 +454,15 @@ def run(ck):
                                       ("closed" if any(e[0] == "sendclose" for e in r["events"]) else "open")))
             probs = ws_recv.check_against_rfc(c, r)
             report_oracle_problems(ck, fw, c, r, probs)
-            groups.setdefault(m, []).append((c, r))
+            if not c.get("burst"):
+                groups.setdefault(m, []).append((c, r))
+        for ib, io in burst_of.items():
+            ck.bump("burst_runs")
+            if canon_result(results[ib]) != canon_result(results[io]):
+                ck.violation(f"aio/burst-dependent/failByDrop={cases[ib]['fbd']}",
+                             f"[{fw}] reads {[len(x) // 2 for x in cases[ib]['chunks']]} delivered back to back before the event loop runs give "
+                             f"{results[ib]['events'][-3:]} state {results[ib]['state']}, read by read {results[io]['events'][-3:]} state {results[io]['state']}",
+                             {"fw": fw, "case": cases[ib], "observed": results[ib], "read_by_read_observed": results[io]}, found_input=True)
         # segmentation independence, judged on the implementation itself
         for m, lst in groups.items():
             whole_c, whole_r = lst[0]
